@@ -65,7 +65,7 @@ class Env:
 
 # ---------------------------------------------------------------------------------------------------------
 # reference semantics
-def _pred(pred, d, o):
+def _pred(pred, d, o, env=None):
     if pred[0] == "eq":
         return d == pred[1]
     if pred[0] == "gt":
@@ -74,6 +74,8 @@ def _pred(pred, d, o):
         return d > pred[1]
     if pred[0] == "isnone":
         return d is None
+    if pred[0] == "gtds":
+        return d > ref_eval(pred[1], o, env)
     if pred[0] == "eqopt":
         try:
             return d == ref_resolve(ref_lookup(o, pred[1]), o)
@@ -87,6 +89,8 @@ def _fn(name, x):
         return ("w", x)
     if name == "neg":
         return -x
+    if name == "list":
+        return list(x)
     raise ValueError(name)
 
 
@@ -121,8 +125,23 @@ def ref_eval(spec, o, env=None):
             raise RefFail("missing", key)
         if t == "optdom":
             lo, hi = spec[2]
+            env_hit(env, "dom", "dom:" + key)
             if not (isinstance(v, int) and lo <= v <= hi):
                 raise RefFail("domain", key)
+        return v
+    if t == "optdome":
+        # Option(key, domain=Option(domkey)): the domain is itself read from the options (a container of allowed values)
+        key, domkey = spec[1], spec[2]
+        if ref_exists(o, key):
+            v = ref_lookup(o, key)
+        elif spec[3:]:
+            v = ref_eval(spec[3], o, env)
+        else:
+            raise RefFail("missing", key)
+        if not ref_exists(o, domkey):
+            raise RefFail("missing", domkey)
+        if v not in ref_lookup(o, domkey):
+            raise RefFail("domain", key)
         return v
     if t == "ds":
         ex = spec[3]
@@ -154,7 +173,7 @@ def ref_eval(spec, o, env=None):
         d = ref_eval(spec[1], o, env)
         for pred, s in spec[2]:
             env_hit(env, "pred", "pred")
-            if _pred(pred, d, o):
+            if _pred(pred, d, o, env):
                 return ref_eval(s, o, env)
         if spec[3:]:
             return ref_eval(spec[3], o, env)
@@ -178,7 +197,7 @@ def ref_eval(spec, o, env=None):
         v = ref_eval(spec[1], o, env)
         nxt = spec[2].get(v, spec[3])
         return ref_eval(nxt, o, env)
-    if t in ("list", "iter"):
+    if t in ("list", "iter", "rawiter"):
         return [ref_eval(s, o, env) for s in spec[1]]
     if t == "tuple":
         return tuple(ref_eval(s, o, env) for s in spec[1])
@@ -264,6 +283,8 @@ def _ref_impl(impl, o, env):
     _, name, args, kind = impl
     vals = [ref_eval(a, o, env) for a in args]
     env_hit(env, "body", name)
+    if kind == "first":
+        return vals[0]
     if kind == "sum":
         total = 0
         for v in vals:
@@ -305,8 +326,13 @@ def build(spec, env):
             return Option(s[1], default=b(s[2])) if s[2:] else Option(s[1])
         if t == "optdom":
             lo, hi = s[2]
-            dom = (lambda lo, hi: (lambda x: isinstance(x, int) and lo <= x <= hi))(lo, hi)
+            def dom(x, lo=lo, hi=hi, key=s[1]):
+                env.hit("dom", "dom:" + key)
+                return isinstance(x, int) and lo <= x <= hi
+
             return Option(s[1], default=b(s[3]), domain=dom) if s[3:] else Option(s[1], domain=dom)
+        if t == "optdome":
+            return Option(s[1], default=b(s[3]), domain=Option(s[2])) if s[3:] else Option(s[1], domain=Option(s[2]))
         if t == "ds":
             _, name, args, ex = s
             fn = _mk_body(name, len(args), ex.get("kind", "tup"), env)
@@ -364,6 +390,8 @@ def build(spec, env):
             return evaluatable_dict({"k%d" % i: b(x) for i, x in enumerate(s[1])})
         if t == "iter":
             return Iter(*[b(x) for x in s[1]]) >> list
+        if t == "rawiter":
+            return Iter(*[b(x) for x in s[1]])          # lazy: evaluate() returns a generator
         if t == "map":
             return Map(b(s[1]), {k: b(it) for k, it in s[2]}) >> list
         if t == "template":
@@ -393,12 +421,14 @@ def _neg(x):
     return -x
 
 
-_FNS = {"wrap": _wrap, "neg": _neg}
+_FNS = {"wrap": _wrap, "neg": _neg, "list": list}
 
 
 def _mk_body(name, n, kind, env):
     def finish(vals):
         env.hit("body", name)
+        if kind == "first":
+            return vals[0]
         if kind == "sum":
             total = 0
             for v in vals:
@@ -477,6 +507,15 @@ def _mk_pred(pred, env):
             return d is None
 
         return p
+    if pred[0] == "gtds":
+        def mkgt(t):
+            def p(d):
+                env.hit("pred", "pred")
+                return d > t
+
+            return p
+
+        return FunctionApplication(mkgt, build(pred[1], env))
     if pred[0] == "eqopt":
         def mk(t):
             def p(d):
@@ -491,8 +530,8 @@ def _mk_pred(pred, env):
 
 # ---------------------------------------------------------------------------------------------------------
 # all spec nodes / callable names of a spec (for fault plans and laziness bookkeeping)
-_TAGS = {"const", "opt", "optdom", "ds", "switch", "case", "coalesce", "apply", "applyopt", "bind", "list", "tuple",
-         "dict", "iter", "map", "template", "with", "cached"}
+_TAGS = {"const", "opt", "optdom", "optdome", "ds", "switch", "case", "coalesce", "apply", "applyopt", "bind", "list", "tuple",
+         "dict", "iter", "rawiter", "map", "template", "with", "cached"}
 
 
 def walk(x):
